@@ -50,6 +50,8 @@ class IRGen(object):
         self.bits = ctx.bits
 
     # ---- expressions
+    merge_irdst = 0.3
+
     def const(self, n):
         r = self.rng
         if r.random() < 0.6:
@@ -186,7 +188,15 @@ class IRGen(object):
     def block(self, loc_key, succs, n_blks=None, depth=2):
         n_blks = n_blks if n_blks is not None else self.rng.choice([1, 2, 2, 3])
         blks = [self.assignblk(depth) for _ in range(n_blks)]
-        blks.append(self.irdst_assign(succs))
+        last = self.irdst_assign(succs)
+        if blks and self.rng.random() < self.merge_irdst:
+            # IRDst shares the last AssignBlock with other assignments (what lifters emit for one-
+            # AssignBlock instructions: conditional moves, LOOP, delay slots): the destination is
+            # computed from the values before this AssignBlock
+            both = dict(blks.pop())
+            both.update(last)
+            last = AssignBlock(both)
+        blks.append(last)
         return IRBlock(self.ctx.loc_db, loc_key, blks)
 
     def new_ircfg(self):
